@@ -40,8 +40,8 @@ ASSUMPTIONS = []
 
 
 def registry():
-    from contracts import mapspec, misc
-    allc = misc.ALL + mapspec.ALL
+    from contracts import mapspec, misc, shape
+    allc = misc.ALL + mapspec.ALL + shape.ALL
     return {**{c.short: c for c in allc}, **{c.name: c for c in allc}}
 
 
@@ -56,7 +56,7 @@ def _vuo_gen(rng, tier):
 def proof_items():
     from contracts import misc
     from vf.driver import ProofItem
-    from contracts import mapspec
+    from contracts import mapspec, shape
     from props.C08 import _vshape_gen
     return [ProofItem(misc.validate_unique_output_names, gen=_vuo_gen),
             # the map-level rejections of surplus / missing arrays and wrong ranks come from here
@@ -64,7 +64,9 @@ def proof_items():
             # missing / surplus inputs of a map request
             ProofItem(misc.validate_complete_inputs, gen=misc.vci_gen),
             # the "inconsistent defaults" fault class
-            ProofItem(misc.validate_consistent_defaults, gen=misc.vcd_gen)]
+            ProofItem(misc.validate_consistent_defaults, gen=misc.vcd_gen),
+            # rank / zipped-dimension mismatch of the inputs of a map (thorough tier: ~45 s of solver time)
+            ProofItem(shape.mapspec_shape, gen=shape.shape_gen, thorough_only=True)]
 
 
 # ---- construction-level faults on call-level DAGs --------------------------------------------------------------
